@@ -479,6 +479,16 @@ func runC08(c *core.Ctx, idx int) {
 		}
 		vetoArmed, vetoCount = veto, 0
 		ctx := boltz.NewMutateContext(context.Background())
+		// every third transaction: the caller hands over a context that already carries a commit action
+		preRegistered := s%3 == 1
+		if preRegistered {
+			ctx.AddCommitAction(func() {
+				rec.mu.Lock()
+				rec.commitAct[s]++
+				rec.mu.Unlock()
+			})
+			c.Cover("nesting", "commit-action-registered-before-the-transaction")
+		}
 		body := func(ctx boltz.MutateContext) error {
 			rec.mu.Lock()
 			rec.inBody = true
@@ -550,8 +560,12 @@ func runC08(c *core.Ctx, idx int) {
 		td := map[int]int{s: 0}
 		if committed {
 			commits[s] = 1
+			if preRegistered {
+				commits[s] = 2
+			}
 			td[s] = 1
 		}
+		info["commit_action_registered_before_the_transaction"] = preRegistered
 		checkTx(label, []int{s}, exp, commits, td, info)
 		for _, op := range ops {
 			c.Nontrivial(op.Kind, op.Store, label, len(ops))
